@@ -482,6 +482,66 @@ def normalize(F, t, depth=4):
                  (tuple(normalize(F, y, depth) for y in x) if isinstance(x, tuple) else x) for x in t)
 
 
+def reduce_option(F, t, depth=6):
+    """evaluate Option adaptors on a term whose Option operands are known variants on this path:
+       unwrap_or(Some(v), d) -> v, unwrap_or(None, d) -> d, as_ref/as_mut/copied/cloned(x) -> x,
+       map(Some(v), closure) -> Some(body[v]), map(None, _) -> None, unwrap_or_else likewise.
+    Anything else is left as it is (the caller's comparison then fails to recognise it)."""
+    if not isinstance(t, tuple) or not t or depth <= 0:
+        return t
+    if t[0] == 'ref':
+        return T('ref', reduce_option(F, t[1], depth))
+    if t[0] != 'call':
+        return t
+    name = _plain(t[1])
+    args = tuple(reduce_option(F, a, depth) for a in t[2])
+
+    def variant(x):
+        x = deref(x)
+        if isinstance(x, tuple) and x and x[0] == 'adt' and x[1].split('::')[-1] == 'Option':
+            return x
+        return None
+
+    def apply(clo, vals):
+        clo = deref(clo)
+        if not (isinstance(clo, tuple) and clo and clo[0] == 'closure' and clo[1] in F.fns):
+            return None
+        try:
+            ps = PathEnum(F, F.fns[clo[1]], max_paths=4).run()
+        except Undecided:
+            return None
+        if len(ps) != 1 or ps[0][0]:
+            return None
+        env = T('tuple', tuple(clo[2]))
+        return reduce_option(F, simplify(substitute(ps[0][1], (env,) + tuple(vals))), depth - 1)
+
+    if re.search(r'Option::(as_ref|as_mut|copied|cloned|as_deref)$', name) and args:
+        v = variant(args[0])
+        if v is not None:
+            return v
+    elif re.search(r'Option::unwrap_or$', name) and len(args) == 2:
+        v = variant(args[0])
+        if v is not None:
+            return v[3][0] if v[2] == 'Some' and v[3] else (args[1] if v[2] == 'None' else T('call', t[1], args))
+    elif re.search(r'Option::unwrap_or_else$', name) and len(args) == 2:
+        v = variant(args[0])
+        if v is not None and v[2] == 'Some' and v[3]:
+            return v[3][0]
+        if v is not None and v[2] == 'None':
+            r = apply(args[1], ())
+            if r is not None:
+                return r
+    elif re.search(r'Option::map$', name) and len(args) == 2:
+        v = variant(args[0])
+        if v is not None and v[2] == 'None':
+            return v
+        if v is not None and v[2] == 'Some' and v[3]:
+            r = apply(args[1], (v[3][0],))
+            if r is not None:
+                return T('adt', v[1], 'Some', (r,))
+    return T('call', t[1], args)
+
+
 def strip_refs(t):
     """drop reference wrappers everywhere (borrows do not change which value is projected)"""
     if not isinstance(t, tuple) or not t:
